@@ -122,7 +122,8 @@ func (w *World) infixModel() *infixModel {
 }
 
 func isOpSig(sig *types.Signature) bool {
-	return sig.Params().Len() == 3 && sig.Results().Len() == 2 && isBasicKind(sig.Params().At(2).Type(), types.String) && isErrorType(sig.Results().At(1).Type())
+	// (left, right, operator[, further operands that the callers fix])
+	return sig.Params().Len() >= 3 && sig.Results().Len() == 2 && isBasicKind(sig.Params().At(2).Type(), types.String) && isErrorType(sig.Results().At(1).Type())
 }
 
 // callsOpFuncs: fn has the operator-function signature itself but only hands
@@ -198,7 +199,7 @@ func (m *infixModel) atomOf(p *pwPath, t *opTab, v ssa.Value, depth int) (side s
 	}
 	v = p.resolve(stripIface(p.resolve(v)))
 	// parameters: receiver, l, r, op
-	if len(t.fn.Params) == 4 {
+	if len(t.fn.Params) >= 4 {
 		if v == ssa.Value(t.fn.Params[1]) {
 			return "l", ""
 		}
@@ -266,7 +267,7 @@ func (m *infixModel) singleVariadic(p *pwPath, t *opTab, v ssa.Value, depth int)
 
 func (m *infixModel) seedOp(t *opTab, label string) func(*pwPath, ssa.Value) (constant.Value, bool) {
 	return func(_ *pwPath, v ssa.Value) (constant.Value, bool) {
-		if len(t.fn.Params) == 4 && v == ssa.Value(t.fn.Params[3]) {
+		if len(t.fn.Params) >= 4 && v == ssa.Value(t.fn.Params[3]) {
 			return constant.MakeString(label), true
 		}
 		return nil, false
